@@ -192,7 +192,15 @@ def run_impl(case):
     if not _impl:
         setup('quick')
     cfg, rq = case['cfg'], case['req']
-    h = _helper(cfg)
+    pol = None
+    if case.get('via_policy'):
+        # the policy wrapper is a second public entry point: its constructor builds the helper, its remember / forget /
+        # unauthenticated_userid delegate to it
+        kw = dict(cfg)
+        pol = _impl['A'].AuthTktAuthenticationPolicy(kw.pop('secret'), **kw)
+        h = pol.cookie
+    else:
+        h = _helper(cfg)
     hfb = _helper(cfg, reissue_time=None)
     tnow = rq['now'] + 0.5 if rq.get('half') else rq['now']     # float clock, as time.time() gives
     _impl['clock'].t = tnow
@@ -218,9 +226,9 @@ def run_impl(case):
                     kw = {'tokens': tuple(op[3])}
                     if op[2] is not None:
                         kw['max_age'] = op[2]
-                    hs = h.remember(req, _py_uval(op[1]), **kw)
+                    hs = (pol or h).remember(req, _py_uval(op[1]), **kw)
                 else:
-                    hs = h.forget(req)
+                    hs = (pol or h).forget(req)
                 cks = _cookies_of(hs)
                 outs.append([2, cks])
                 fed += [c[1][0] for c in cks if c[1]]
@@ -234,6 +242,21 @@ def run_impl(case):
     except Exception as e:
         rcks = ['CALLBACK-EXC', type(e).__name__]
     fed += [c[1][0] for c in rcks if isinstance(c, list) and c[1]]
+    if pol is not None:
+        # delegation: on a fresh request the policy reports exactly the user id the helper identifies
+        ra, rb = _mkreq(rq, cfg['cookie_name'], rq['cookie']), _mkreq(rq, cfg['cookie_name'], rq['cookie'])
+        try:
+            a = pol.unauthenticated_userid(ra)
+            a = ['uid', _wire_uval(a)] if a is not None else ['none']
+        except Exception:
+            a = ['raise']
+        try:
+            b = h.identify(rb)
+            b = ['uid', _wire_uval(b['userid'])] if b else ['none']
+        except Exception:
+            b = ['raise']
+        if a != b:
+            outs.append(['POLICY-DELEGATION', a, b])
     fb = []
     for v in fed:
         r2 = _mkreq(rq, cfg['cookie_name'], v)
@@ -445,6 +468,9 @@ def _problems(case, obs, spec):
     dok, expect, sresp, sattrs = spec
     oc, outs, resp, fb = obs
     ids = _ids(obs)
+    for o in outs:
+        if o and o[0] == 'POLICY-DELEGATION':
+            bad.append(('policy-delegation', o))
     org = case.get('origin')
     for r in ids:
         if r == [2] and not dok:      # a validly signed cookie with foreign contents is outside the claim
@@ -562,6 +588,8 @@ def kinds(case, obs):
         ks.append('clock:' + case['clock'])
     if case['req'].get('half'):
         ks.append('clock-fraction:.5')
+    if case.get('via_policy'):
+        ks.append('via-AuthTktAuthenticationPolicy')
     if case['cfg']['include_ip']:
         ks.append('ip:' + ('v6' if ':' in case['req']['ip'] else 'v4'))
     return ks
